@@ -31,11 +31,18 @@ pub fn run_plan(plan: &Plan, mode: Mode, obs: &mut dyn Observer) -> Result<Finis
         Ok((chain, passes))
     })();
     match r {
-        Ok((chain, passes)) => Ok(Finished {
+        Ok((chain, passes)) => {
+            if std::env::var("VCHECK_TRACE_ALWAYS").is_ok() {
+                for l in &w.trace {
+                    println!("{l}");
+                }
+            }
+            Ok(Finished {
             world: w,
             chain,
             passes,
-        }),
+        })
+        }
         Err(f) => {
             set_last_trace(std::mem::take(&mut w.trace));
             Err(f)
